@@ -154,8 +154,10 @@ structure Ext where
   call : String → Val → Except Exc Val
   /-- user predicates -/
   cond : String → Int → Val → Except Exc Bool
-  /-- `__post_init__`: may raise, may assign fields -/
-  hook : String → List (String × Val) → Except Exc (List (String × Val))
+  /-- `__post_init__`: may raise, may assign fields.  Third argument: the record of set fields
+  (`__pane_set__`, in field order) as the hook sees it — on every construction path it is already the
+  record of the finished instance -/
+  hook : String → List (String × Val) → List String → Except Exc (List (String × Val))
   /-- `default_factory()` -/
   factory : String → Val
   /-- `str(v)` for values whose text the model does not compute itself -/
